@@ -2,6 +2,7 @@
 import ast
 
 from .common import *
+from ..absint import NativeModel
 from ..frontend import AnchorMissing
 from ..pointscan import Scan
 from ..poly import Poly, all_atoms, deep_subs
@@ -11,6 +12,75 @@ REL = "cyecca/symbolic.py"
 
 def _is_name(n, name):
     return isinstance(n, ast.Name) and n.id == name
+
+
+
+class _SymF(NativeModel):
+    """Stand-in for a sympy expression f(x): records series expansions requested of it."""
+
+    def __init__(self, tag):
+        self.tag = tag
+
+    def series(self, x=None, x0=0, n=6, *rest, **kw):
+        return _SymF(("series", self.tag, getattr(x, "tag", x), x0, n, False))
+
+    def removeO(self):
+        if isinstance(self.tag, tuple) and self.tag[0] == "series":
+            return _SymF(self.tag[:5] + (True,))
+        return self
+
+    def __repr__(self):
+        return "sym%r" % (self.tag,)
+
+
+def check_switch_value(w, rep, rule, fn):
+    from ..absint import Env
+    it = w.it
+    sf = w.fe.get(REL)
+    W = (REL, fn.lineno)
+    env = Env({"__name__": "cyecca.symbolic", "__file__": sf.path})
+    env.is_module = True
+    env["ca"] = CA
+    env["sympy"] = _SymF("sympy-module")
+    log = []
+
+    def conv(f=None, f_dict=None, symbols=None, cse=False, verbose=False):
+        log.append((f, symbols))
+        tag = getattr(f, "tag", None)
+        return cm.scalar(cm.opaque("conv", repr(tag)), "SX"), symbols
+    I = "taylor_series_near_zero"
+    try:
+        for st in sf.tree.body:
+            if isinstance(st, ast.FunctionDef):
+                it.exec_stmt(st, env, "cyecca.symbolic")
+        env["sympy_to_casadi"] = conv
+        cases = []
+        for label, kw in (("defaults", {}), ("order=4, eps=1/100", {"order": 4, "eps": Fraction(1, 100)})):
+            del log[:]
+            g = it.call(env["taylor_series_near_zero"], [_SymF("x"), _SymF("f")], dict(kw), fn)
+            cases.append((label, kw, g, list(log)))
+    except (InterpRaise, Unsupported) as ex:
+        rep.incomplete(rule, I + " switch", "cannot interpret taylor_series_near_zero: %s" % ex, where=W)
+        return
+    for label, kw, g, lg in cases:
+        order, eps = kw.get("order", 6), kw.get("eps", Fraction(1, 1000))
+        inst = I + "(x, f%s) = Function(x -> if_else(fabs(x) < eps, series of f to that order, f))" % ("" if not kw else ", " + label)
+        if not isinstance(g, cm.FunctionVal) or len(g.ins) != 1 or len(g.outs) != 1 or not g.ins[0].is_scalar() or not g.outs[0].is_scalar():
+            rep.fail(rule, inst, "does not return a casadi Function of one scalar argument and one scalar result", where=W)
+            continue
+        x = g.ins[0].s()
+        ser = cm.opaque("conv", repr(("series", "f", "x", 0, order, True)))
+        want = cm.ite(cm._cmp("lt", cm.un("fabs", x), Poly.const(eps)), ser, cm.opaque("conv", repr("f")))
+        got = g.outs[0].s()
+        if decide(got, want) == EQUAL:
+            tables = {id(sy) for _, sy in lg}
+            xs = [sy.get("x") for _, sy in lg if isinstance(sy, dict)]
+            same = len(tables) == 1 and len(xs) == len(lg) and all(isinstance(v, MatVal) and v.is_scalar() and v.s() == x for v in xs)
+            rep.check(rule, inst, same, "series and closed form are converted with different symbol tables, or the Function argument is not the table's x", where=W,
+                      fact={"value": short(got, 160)})
+        else:
+            rep.fail(rule, inst, "the function built is %s, expected %s (small-argument branch: Taylor polynomial of the same f about 0 with the O() term removed; switch on fabs(x) < eps)"
+                     % (short(got, 200), short(want, 200)), where=W)
 
 
 def check_table(w, rep, rule="C06.table"):
@@ -24,40 +94,10 @@ def check_table(w, rep, rule="C06.table"):
               "default series order is %s, the documented order is 6" % (ast.unparse(od) if od else "missing"), where=(REL, fn.lineno))
     rep.check(rule, "taylor_series_near_zero default eps = 1e-3", isinstance(ed, ast.Constant) and ed.value == 1e-3,
               "default switch threshold is %s, the documented threshold is 1e-3" % (ast.unparse(ed) if ed else "missing"), where=(REL, fn.lineno))
-    # the returned Function is if_else(fabs(x) < eps, series(f), f) of the same f and x
-    assigns = {}
-    for st in ast.walk(fn):
-        if isinstance(st, ast.Assign):
-            for t in st.targets:
-                if isinstance(t, ast.Name):
-                    assigns.setdefault(t.id, []).append((st.end_lineno, st.value))
-                elif isinstance(t, ast.Tuple) and t.elts and isinstance(t.elts[0], ast.Name):
-                    assigns.setdefault(t.elts[0].id, []).append((st.end_lineno, st.value))
-    ite = [n for n in ast.walk(fn) if isinstance(n, ast.Call) and ast.unparse(n.func) in ("ca.if_else", "casadi.if_else", "if_else")]
-    if len(ite) != 1 or len(ite[0].args) < 3:
-        rep.incomplete(rule, "taylor_series_near_zero switch", "expected exactly one if_else(cond, series, closed) in taylor_series_near_zero", where=(REL, fn.lineno))
-    else:
-        c, a, b = ite[0].args[:3]
-        cond_ok = (isinstance(c, ast.Compare) and len(c.ops) == 1 and isinstance(c.ops[0], ast.Lt)
-                   and isinstance(c.left, ast.Call) and ast.unparse(c.left.func) in ("ca.fabs", "casadi.fabs", "fabs")
-                   and _is_name(c.comparators[0], "eps"))
-        rep.check(rule, "switch condition is fabs(x) < eps", cond_ok, "switch condition is %s" % ast.unparse(c), where=(REL, ite[0].lineno))
-        # a must come from f.series(x, 0, order).removeO(); b from f itself
-        def origin(nm):
-            # reaching definitions of nm at the if_else: the assignments that precede it (straight-line function)
-            return [ast.unparse(v) for ln, v in sorted(assigns.get(nm, []), key=lambda z: z[0]) if ln < ite[0].lineno]
-        a_src = origin(a.id) if isinstance(a, ast.Name) else [ast.unparse(a)]
-        b_src = origin(b.id) if isinstance(b, ast.Name) else [ast.unparse(b)]
-        ser_ok = any(".series(" in s and "removeO" in s for s in a_src) and any("sympy_to_casadi" in s for s in a_src)
-        ser_call = [n for n in ast.walk(fn) if isinstance(n, ast.Call) and isinstance(n.func, ast.Attribute) and n.func.attr == "series"]
-        args_ok = bool(ser_call) and len(ser_call[0].args) == 3 and _is_name(ser_call[0].args[0], "x") and isinstance(ser_call[0].args[1], ast.Constant) \
-            and ser_call[0].args[1].value == 0 and _is_name(ser_call[0].args[2], "order") and _is_name(ser_call[0].func.value, "f")
-        rep.check(rule, "series branch is f.series(x, 0, order).removeO() of the same f", ser_ok and args_ok,
-                  "the small-argument branch is not the order-`order` Taylor polynomial of f about 0 (%s)" % "; ".join(a_src), where=(REL, ite[0].lineno))
-        closed_ok = any("sympy_to_casadi(f" in s.replace(" ", "") for s in b_src) and not any("series" in s for s in b_src)
-        rep.check(rule, "closed-form branch is f itself", closed_ok, "the large-argument branch is not f (%s)" % "; ".join(b_src), where=(REL, ite[0].lineno))
-        same_sym = all("symbols=symbols" in s.replace(" ", "") for s in a_src + b_src if "sympy_to_casadi" in s)
-        rep.check(rule, "both branches are converted with the same symbol table", same_sym, "series and closed form are converted with different symbol tables", where=(REL, ite[0].lineno))
+    # the returned Function is if_else(fabs(x) < eps, series(f), f) of the same f and x: decided on the VALUE the function
+    # builds (abstract run with stand-ins for the sympy objects and for sympy_to_casadi), so that helper extraction, local
+    # names, the complementary condition with swapped branches ... are all the same switch
+    check_switch_value(w, rep, rule, fn)
     # every entry: taylor_series_near_zero(u, f) with defaults
     n_ok = 0
     for e in w.series:
@@ -281,7 +321,7 @@ def run(w, rep, tier):
     check_singularities(w, rep, tier)
     # the Taylor polynomial and the closed form reach CasADi through sympy_to_casadi: its leaf / fold / function rules (C19)
     # are part of "the series branch is the Taylor polynomial of f" (seeded C06-9 expanded integer powers one time too many)
-    forward_rules(w, rep, "c19", {"C19.leaf": "C06.convert", "C19.fold": "C06.convert", "C19.func": "C06.convert"}, tier)
+    forward_rules(w, rep, "c19", {"C19.leaf": "C06.convert", "C19.fold": "C06.convert", "C19.func": "C06.convert", "C19.value": "C06.convert"}, tier)
     rep.floor("C06.convert", 10)
     # "within 1e-9 of the exact value": the table rule says both branches of a coefficient are the SAME formula; that the
     # consumer asked for the RIGHT formula (and combined the coefficients into the exact exp / log / Jacobian / mixed
